@@ -6,6 +6,9 @@
 cd /verif
 mkdir -p build/seedlogs
 PROPS=$(ls seeded | grep -E '^C[0-9]+-[0-9]+$' | sed 's/-.*//' | sort -u)
+# optional arguments: the properties to (re-)run; the table is always assembled from every log present
+[ $# -gt 0 ] && PROPS="$*"
+[ "$PROPS" = "assemble" ] && PROPS=""
 for P in $PROPS; do
   ( for S in $(ls seeded | grep -E "^$P-[0-9]+$" | sort -t- -k2 -n); do tools/run_seed.sh $S > build/seedlogs/$S.log 2>&1; done
     ./check $P > build/seedlogs/$P-clean.log 2>&1 ) &
